@@ -74,7 +74,7 @@ def rule_a(ctx, cr):
     if cr.unanalysed:
         ctx.bad("C03.a", "scope/unanalysed", "", "bodies without MIR: %s" % cr.unanalysed)
     n, used = panics.inventory(ctx, "C03.a", cr, roots, allow)
-    ctx.floor("C03.a", "panic-capable sites", n, 170)
+    ctx.floor("C03.a", "panic-capable sites", n, 170, rel=95)
     stale = sorted(set(allow) - used)
     for k in stale:
         # a stale row suppresses nothing; reported as a note only
